@@ -122,6 +122,39 @@ func TestNamespace(t *testing.T) {
 					t.Fatal(err)
 				}
 				ds = w.Dsm.GetDataset("nsdata")
+			case "payload":
+				// the payload binds a prefix the hub uses for something else (ns0 / ns1: the hub's own core
+				// namespaces, or the newest prefix handed out) to this URI's expansion
+				for _, local := range []string{"ns1", fmt.Sprintf("ns%d", len(ctxPairs(w))-1)} {
+					doc := fmt.Sprintf(`[{"id":"@context","namespaces":{%q:%q}},{"id":%q,"props":{},"refs":{}}]`, local, st.Exp, local+":"+st.Local)
+					var parsed []*server.Entity
+					perr := server.NewEntityStreamParser(w.Store).ParseStream(strings.NewReader(doc), func(e *server.Entity) error {
+						parsed = append(parsed, e)
+						return nil
+					})
+					sum.Checks++
+					if perr != nil || len(parsed) != 1 {
+						r.Divs = append(r.Divs, Divergence{Kind: "payload", Query: doc, Expected: "one entity", Actual: fmt.Sprint(perr, len(parsed))})
+						continue
+					}
+					curie := parsed[0].ID
+					i := strings.Index(curie, ":")
+					if i < 0 || curie[i+1:] != st.Local {
+						r.Divs = append(r.Divs, Divergence{Kind: "payload", Query: doc, Expected: "<prefix>:" + st.Local, Actual: curie})
+						continue
+					}
+					emit(nsEvent{K: "ns", Exp: st.Exp, Prefix: curie[:i]})
+					back, err := w.Store.ExpandCurie(curie)
+					if err != nil {
+						back = "error: " + err.Error()
+					}
+					emit(nsEvent{K: "rt", URI: st.URI, Back: back})
+					if err := ds.StoreEntities(parsed); err != nil {
+						r.Divs = append(r.Divs, Divergence{Kind: "store", Query: st.URI, Expected: "stored", Actual: err.Error()})
+						continue
+					}
+					emit(nsEvent{K: "id", URI: st.URI, ID: parsed[0].InternalID})
+				}
 			case "curie", "store":
 				curie, err := w.Store.GetNamespacedIdentifierFromURI(st.URI)
 				sum.Checks++
@@ -152,7 +185,7 @@ func TestNamespace(t *testing.T) {
 			emit(nsEvent{K: "ctxall", Pairs: ctxPairs(w)})
 			// ids of everything stored so far resolve to the same id (also after restarts)
 			for _, u := range b.Steps {
-				if u.A != "store" {
+				if u.A != "store" && u.A != "payload" {
 					continue
 				}
 				if ent, err := w.Store.GetEntity(u.URI, []string{"nsdata"}, true); err == nil && ent != nil && ent.InternalID != 0 {
